@@ -1067,6 +1067,44 @@ fn gen_oracle_case(rng: &mut Rng, id: String) -> Case {
     let mut ops = vec![format!("query {} {}", hex(name.as_bytes()), ty)];
     let t0 = *rng.pick(&[0i64, 1, 1_000_000, 77_000_000]);
     match rng.below(10) {
+        0..=3 if rng.chance(1, 6) => {
+            // two steps: a matching response with a CNAME that is then cut off (settles nothing),
+            // followed by a response that repeats the CNAME target as its question
+            ops.push(format!("poll {}", t0));
+            let target = rand_name(rng);
+            let mut d1 = vec![0, 0, 0x81, 0x80, 0, 1, 0, 2, 0, 0, 0, 0];
+            d1.extend_from_slice(&enc_name(&labels));
+            d1.extend_from_slice(&ty.to_be_bytes());
+            d1.extend_from_slice(&[0, 1, 0xc0, 0x0c, 0, 5, 0, 1, 0, 0, 0, 60]);
+            let mut tn = enc_name(&target);
+            match rng.below(4) {
+                0 => { tn.pop(); }                                  // target without terminator
+                1 => { let l = tn.len(); tn[l - 1] = 0xc0; tn.push(0xff); } // target ends in an out-of-range pointer
+                _ => {}
+            }
+            d1.extend_from_slice(&(tn.len() as u16).to_be_bytes());
+            d1.extend_from_slice(&tn);
+            d1.extend_from_slice(&[0xc0, 0x0c, 0, 1]); // second record cut off
+            let b1 = Built { data: d1, pd: 0, src: server.clone(), sport: 53, on_chain: vec![], all_addrs: vec![] };
+            ops.push(rsp_line(0, 0, &b1));
+            if rng.chance(1, 2) {
+                ops.push("ppoll 0".into());
+            }
+            let mut d2 = vec![0, 0, 0x81, 0x80, 0, 1, 0, 1, 0, 0, 0, 0];
+            d2.extend_from_slice(&enc_name(&target));
+            d2.extend_from_slice(&ty.to_be_bytes());
+            d2.extend_from_slice(&[0, 1, 0xc0, 0x0c]);
+            d2.extend_from_slice(&ty.to_be_bytes());
+            d2.extend_from_slice(&[0, 1, 0, 0, 0, 60]);
+            let a = rng.bytes(if ty == 28 { 16 } else { 4 });
+            d2.extend_from_slice(&(a.len() as u16).to_be_bytes());
+            d2.extend_from_slice(&a);
+            let b2 = Built { data: d2, pd: 0, src: server.clone(), sport: 53, on_chain: vec![], all_addrs: vec![] };
+            ops.push(rsp_line(0, 0, &b2));
+            ops.push("ppoll 0".into());
+            ops.push("get 0".into());
+            Case { id, cfg: base_cfg(rng, &servers, "clause:rewritten-question".into()), ops }
+        }
         0..=3 => {
             // exactly one clause violated; everything else is a good answer
             let viol = *rng.pick(&VIOLS);
@@ -1164,6 +1202,7 @@ fn oracle_case(c: &Case, fails: &mut Vec<String>, stats: &mut BTreeMap<String, u
     let mut cur_hop_set = false;
     let mut last_now: i64 = 0;
     let mut first_tx: BTreeMap<usize, i64> = BTreeMap::new();
+    let mut first_q: BTreeMap<usize, Vec<u8>> = BTreeMap::new();
     let mut tx_times: BTreeMap<usize, Vec<(i64, Vec<u8>)>> = BTreeMap::new();
     let mut prev: Option<&Obs> = None;
     let mut dead: std::collections::BTreeSet<usize> = Default::default();
@@ -1205,6 +1244,10 @@ fn oracle_case(c: &Case, fails: &mut Vec<String>, stats: &mut BTreeMap<String, u
                         fail("query-hop-limit-wrong", format!("query transmitted with hop limit {} (configured {})", x.hop, cur_hop));
                     }
                     if let Some(k) = x.k {
+                        let q0 = first_q.entry(k).or_insert_with(|| x.dns.clone());
+                        if *q0 != x.dns {
+                            fail("retransmitted-question-differs", format!("query {} first asked {} and later {}", k, hex(q0), hex(&x.dns)));
+                        }
                         first_tx.entry(k).or_insert(*t);
                         tx_times.entry(k).or_default().push((*t, x.dst.clone()));
                     } else {
